@@ -248,6 +248,7 @@ int POOL_resize(POOL_ctx* ctx, size_t numThreads)
     ZSTD_pthread_mutex_lock(&ctx->queueMutex);
     result = POOL_resize_internal(ctx, numThreads);
     ZSTD_pthread_cond_broadcast(&ctx->queuePopCond);
+    ZSTD_pthread_cond_broadcast(&ctx->queuePushCond);   /* a larger threadLimit can un-fill a hand-off (queueSize==0) pool */
     ZSTD_pthread_mutex_unlock(&ctx->queueMutex);
     return result;
 }
